@@ -44,24 +44,43 @@ impl MatchCase {
         }
         self.alts.iter().any(|alt| {
             let mut env = Env::new();
-            alt.iter().zip(args.iter()).all(|(p, v)| matches(p, v, &mut env))
-                && self.guard.as_ref().map(|g| eval_guard(g, &env)).unwrap_or(true)
+            alt.iter()
+                .zip(args.iter())
+                .all(|(p, v)| matches(p, v, &mut env))
+                && self
+                    .guard
+                    .as_ref()
+                    .map(|g| eval_guard(g, &env))
+                    .unwrap_or(true)
         })
     }
 
     pub fn expected_bits(&self) -> String {
-        self.domain().iter().map(|t| if self.accepts(t) { '1' } else { '0' }).collect()
+        self.domain()
+            .iter()
+            .map(|t| if self.accepts(t) { '1' } else { '0' })
+            .collect()
     }
 
     pub fn macro_args(&self) -> String {
         if self.tys.is_empty() {
             return String::new();
         }
-        let alt_str = |alt: &Vec<P>| alt.iter().zip(self.tys.iter()).map(|(p, t)| print_pat(p, *t)).collect::<Vec<_>>().join(", ");
+        let alt_str = |alt: &Vec<P>| {
+            alt.iter()
+                .zip(self.tys.iter())
+                .map(|(p, t)| print_pat(p, *t))
+                .collect::<Vec<_>>()
+                .join(", ")
+        };
         let body = if self.alts.len() == 1 && self.guard.is_none() {
             alt_str(&self.alts[0])
         } else {
-            self.alts.iter().map(|a| format!("({})", alt_str(a))).collect::<Vec<_>>().join(" | ")
+            self.alts
+                .iter()
+                .map(|a| format!("({})", alt_str(a)))
+                .collect::<Vec<_>>()
+                .join(" | ")
         };
         match &self.guard {
             Some(g) => format!("{body} if {}", print_guard_user(g)),
@@ -72,9 +91,10 @@ impl MatchCase {
     /// Is a plain `match` on references expressible (no AsRef coercion involved)?
     pub fn native_expressible(&self) -> bool {
         for (k, ty) in self.tys.iter().enumerate() {
-            let coerces = self.alts.iter().any(|alt| {
-                has_construct(&alt[k], &|p| matches!(p, P::Str(_) | P::Slice(..)))
-            });
+            let coerces = self
+                .alts
+                .iter()
+                .any(|alt| has_construct(&alt[k], &|p| matches!(p, P::Str(_) | P::Slice(..))));
             if coerces && matches!(ty, Ty::String | Ty::Newtype | Ty::VecU8) {
                 return false;
             }
@@ -103,8 +123,16 @@ impl MatchCase {
             if let Some(g) = &self.guard {
                 guards.push(print_guard(g));
             }
-            let pat = if pats.len() == 1 { pats[0].clone() } else { format!("({})", pats.join(", ")) };
-            let guard = if guards.is_empty() { String::new() } else { format!(" if {}", guards.join(" && ")) };
+            let pat = if pats.len() == 1 {
+                pats[0].clone()
+            } else {
+                format!("({})", pats.join(", "))
+            };
+            let guard = if guards.is_empty() {
+                String::new()
+            } else {
+                format!(" if {}", guards.join(" && "))
+            };
             arms.push_str(&format!("            {pat}{guard} => true,\n"));
         }
         arms
@@ -121,12 +149,21 @@ fn storage_ty(t: Ty) -> &'static str {
 
 pub fn source(case: &MatchCase) -> String {
     let n = case.tys.len();
-    let params: String = case.tys.iter().enumerate().map(|(k, t)| format!(", a{k}: {}", t.rust())).collect();
+    let params: String = case
+        .tys
+        .iter()
+        .enumerate()
+        .map(|(k, t)| format!(", a{k}: {}", t.rust()))
+        .collect();
     let mut s = String::new();
     s.push_str(&format!("#[unimock(api=M)]\npub trait T {{ fn f(&self{params}) -> u8; }}\n\npub fn run() -> String {{\n"));
     for (k, t) in case.tys.iter().enumerate() {
         let vals: Vec<String> = t.domain().iter().map(|v| t.arg_expr(v)).collect();
-        s.push_str(&format!("    let d{k}: Vec<{}> = vec![{}];\n", storage_ty(*t), vals.join(", ")));
+        s.push_str(&format!(
+            "    let d{k}: Vec<{}> = vec![{}];\n",
+            storage_ty(*t),
+            vals.join(", ")
+        ));
     }
     let pat = case.macro_args();
     s.push_str("    let mut unordered = String::new();\n    let mut ordered = String::new();\n    let mut native = String::new();\n");
@@ -134,7 +171,10 @@ pub fn source(case: &MatchCase) -> String {
         "    let u = Unimock::new(M::f.stub(|each| {{\n        each.call(matching!({pat})).returns(1u8);\n        each.call(&|m| m.func(|_, _| true)).returns(0u8);\n    }})).no_verify_in_drop();\n"
     ));
     for k in 0..n {
-        s.push_str(&format!("{}for i{k} in 0..d{k}.len() {{\n", "    ".repeat(k + 1)));
+        s.push_str(&format!(
+            "{}for i{k} in 0..d{k}.len() {{\n",
+            "    ".repeat(k + 1)
+        ));
     }
     let ind = "    ".repeat(n + 1);
     let args: String = case
@@ -147,12 +187,16 @@ pub fn source(case: &MatchCase) -> String {
         })
         .collect();
     s.push_str(&format!("{ind}let r = <Unimock as T>::f(&u{args});\n"));
-    s.push_str(&format!("{ind}unordered.push(if r == 1 {{ '1' }} else {{ '0' }});\n"));
+    s.push_str(&format!(
+        "{ind}unordered.push(if r == 1 {{ '1' }} else {{ '0' }});\n"
+    ));
     s.push_str(&format!("{ind}let o = Unimock::new(M::f.next_call(matching!({pat})).returns(1u8)).no_verify_in_drop();\n"));
     s.push_str(&format!(
         "{ind}let r = std::panic::catch_unwind(std::panic::AssertUnwindSafe(|| <Unimock as T>::f(&o{args})));\n"
     ));
-    s.push_str(&format!("{ind}ordered.push(match r {{ Ok(1) => '1', Ok(_) => '?', Err(_) => '0' }});\n"));
+    s.push_str(&format!(
+        "{ind}ordered.push(match r {{ Ok(1) => '1', Ok(_) => '?', Err(_) => '0' }});\n"
+    ));
     if n > 0 && case.native_expressible() {
         for (k, t) in case.tys.iter().enumerate() {
             match t {
@@ -163,12 +207,28 @@ pub fn source(case: &MatchCase) -> String {
         // reference-typed arguments matched against string literals / slice patterns: the macro
         // converts them with as_str_ref / as_slice; the native equivalent matches the reference itself
         let scr = |k: usize| {
-            let coerces = case.alts.iter().any(|alt| has_construct(&alt[k], &|p| matches!(p, P::Str(_) | P::Slice(..))));
-            if coerces && matches!(case.tys[k], Ty::StrRef | Ty::SliceRef) { format!("n{k}") } else { format!("&n{k}") }
+            let coerces = case
+                .alts
+                .iter()
+                .any(|alt| has_construct(&alt[k], &|p| matches!(p, P::Str(_) | P::Slice(..))));
+            if coerces && matches!(case.tys[k], Ty::StrRef | Ty::SliceRef) {
+                format!("n{k}")
+            } else {
+                format!("&n{k}")
+            }
         };
-        let scrutinee = if n == 1 { scr(0) } else { format!("({})", (0..n).map(scr).collect::<Vec<_>>().join(", ")) };
-        s.push_str(&format!("{ind}let nat = match {scrutinee} {{\n{}            _ => false,\n{ind}}};\n", case.native_arms()));
-        s.push_str(&format!("{ind}native.push(if nat {{ '1' }} else {{ '0' }});\n"));
+        let scrutinee = if n == 1 {
+            scr(0)
+        } else {
+            format!("({})", (0..n).map(scr).collect::<Vec<_>>().join(", "))
+        };
+        s.push_str(&format!(
+            "{ind}let nat = match {scrutinee} {{\n{}            _ => false,\n{ind}}};\n",
+            case.native_arms()
+        ));
+        s.push_str(&format!(
+            "{ind}native.push(if nat {{ '1' }} else {{ '0' }});\n"
+        ));
     }
     for k in (0..n).rev() {
         s.push_str(&format!("{}}}\n", "    ".repeat(k + 1)));
@@ -179,7 +239,11 @@ pub fn source(case: &MatchCase) -> String {
 
 pub fn constructs(case: &MatchCase) -> Vec<&'static str> {
     let mut c = vec![];
-    let any = |f: &dyn Fn(&P) -> bool| case.alts.iter().any(|a| a.iter().any(|p| has_construct(p, f)));
+    let any = |f: &dyn Fn(&P) -> bool| {
+        case.alts
+            .iter()
+            .any(|a| a.iter().any(|p| has_construct(p, f)))
+    };
     if any(&|p| matches!(p, P::Or(_))) {
         c.push("or-pattern");
     }
@@ -207,15 +271,25 @@ pub fn constructs(case: &MatchCase) -> Vec<&'static str> {
     if any(&|p| matches!(p, P::Range(..) | P::CharRange(..))) {
         c.push("range");
     }
-    if any(&|p| matches!(p, P::EC(..) | P::S(..) | P::EB(_) | P::Some(_) | P::Pair(..))) {
+    if any(&|p| {
+        matches!(
+            p,
+            P::EC(..) | P::S(..) | P::EB(_) | P::Some(_) | P::Pair(..)
+        )
+    }) {
         c.push("nested-structure");
     }
     c
 }
 
 pub fn judge(case: &MatchCase, line: &str) -> Result<CaseInfo, String> {
-    let v: Value = serde_json::from_str(line).map_err(|e| format!("HARNESS: bad output line {e}: {line}"))?;
-    let (u, o, n) = (v["u"].as_str().unwrap_or(""), v["o"].as_str().unwrap_or(""), v["n"].as_str().unwrap_or(""));
+    let v: Value =
+        serde_json::from_str(line).map_err(|e| format!("HARNESS: bad output line {e}: {line}"))?;
+    let (u, o, n) = (
+        v["u"].as_str().unwrap_or(""),
+        v["o"].as_str().unwrap_or(""),
+        v["n"].as_str().unwrap_or(""),
+    );
     let exp = case.expected_bits();
     if !n.is_empty() && n != exp {
         return Err(format!(
@@ -226,16 +300,29 @@ pub fn judge(case: &MatchCase, line: &str) -> Result<CaseInfo, String> {
     let first_diff = |bits: &str| -> String {
         for (i, (a, b)) in bits.chars().zip(exp.chars()).enumerate() {
             if a != b {
-                return format!("arguments {:?}: matching! {} them, a Rust match {} them", dom[i], if a == '1' { "accepts" } else { "rejects" }, if b == '1' { "accepts" } else { "rejects" });
+                return format!(
+                    "arguments {:?}: matching! {} them, a Rust match {} them",
+                    dom[i],
+                    if a == '1' { "accepts" } else { "rejects" },
+                    if b == '1' { "accepts" } else { "rejects" }
+                );
             }
         }
         format!("length {} vs {}", bits.len(), exp.len())
     };
     if u != exp {
-        return Err(format!("matching!({}) in unordered evaluation (diagnostics off): {}", case.macro_args(), first_diff(u)));
+        return Err(format!(
+            "matching!({}) in unordered evaluation (diagnostics off): {}",
+            case.macro_args(),
+            first_diff(u)
+        ));
     }
     if o != exp {
-        return Err(format!("matching!({}) in ordered evaluation (diagnostics on): {}", case.macro_args(), first_diff(o)));
+        return Err(format!(
+            "matching!({}) in ordered evaluation (diagnostics on): {}",
+            case.macro_args(),
+            first_diff(o)
+        ));
     }
     if !exp.contains('0') && std::env::var_os("VERIF_DEBUG_C06").is_some() {
         eprintln!("ACCEPT-ALL {:?} :: {}", case.tys, case.macro_args());
@@ -252,29 +339,40 @@ pub fn judge(case: &MatchCase, line: &str) -> Result<CaseInfo, String> {
 
 pub fn case_strategy() -> impl Strategy<Value = MatchCase> {
     let arity = prop_oneof![1 => Just(0usize), 8 => Just(1usize), 10 => Just(2usize), 8 => Just(3usize), 5 => Just(4usize)];
-    let tys = arity.prop_flat_map(|n| proptest::collection::vec(0..ALL_TYS.len(), n)).prop_map(|idx| {
-        // keep the product domain small
-        let mut tys: Vec<Ty> = vec![];
-        let mut size = 1usize;
-        for i in idx {
-            let t = ALL_TYS[i];
-            let d = t.domain().len();
-            if size * d <= 300 {
-                size *= d;
-                tys.push(t);
+    let tys = arity
+        .prop_flat_map(|n| proptest::collection::vec(0..ALL_TYS.len(), n))
+        .prop_map(|idx| {
+            // keep the product domain small
+            let mut tys: Vec<Ty> = vec![];
+            let mut size = 1usize;
+            for i in idx {
+                let t = ALL_TYS[i];
+                let d = t.domain().len();
+                if size * d <= 300 {
+                    size *= d;
+                    tys.push(t);
+                }
             }
-        }
-        tys
-    });
+            tys
+        });
     let n_alts = prop_oneof![6 => Just(1usize), 3 => Just(2usize), 2 => Just(3usize)];
-    (tys, n_alts, proptest::collection::vec(any::<bool>(), 4), any::<u8>(), any::<bool>()).prop_flat_map(
-        |(tys, n_alts, structural, guard_sel, parenthesized)| {
+    (
+        tys,
+        n_alts,
+        proptest::collection::vec(any::<bool>(), 4),
+        any::<u8>(),
+        any::<bool>(),
+    )
+        .prop_flat_map(|(tys, n_alts, structural, guard_sel, parenthesized)| {
             let n_alts = if tys.is_empty() { 1 } else { n_alts };
             let mut alts: Vec<BoxedStrategy<Vec<(P, Vec<(String, VarKind)>)>>> = vec![];
             for _ in 0..n_alts {
                 let mut positions: Vec<BoxedStrategy<(P, Vec<(String, VarKind)>)>> = vec![];
                 for (k, t) in tys.iter().enumerate() {
-                    let coercing = matches!(t, Ty::StrRef | Ty::String | Ty::Newtype | Ty::VecU8 | Ty::SliceRef);
+                    let coercing = matches!(
+                        t,
+                        Ty::StrRef | Ty::String | Ty::Newtype | Ty::VecU8 | Ty::SliceRef
+                    );
                     let st = !coercing || structural[k];
                     let allow_eq = !coercing || !structural[k];
                     positions.push(arg_pat_mode(*t, format!("v{k}"), st, allow_eq));
@@ -284,28 +382,54 @@ pub fn case_strategy() -> impl Strategy<Value = MatchCase> {
             let tys2 = tys.clone();
             alts.prop_flat_map(move |alts| {
                 // guard variables: bound (with the same kind) in every alternative
-                let mut common: Vec<(String, VarKind)> = alts[0].iter().flat_map(|(_, v)| v.clone()).collect();
+                let mut common: Vec<(String, VarKind)> =
+                    alts[0].iter().flat_map(|(_, v)| v.clone()).collect();
                 for alt in &alts[1..] {
-                    let vars: Vec<(String, VarKind)> = alt.iter().flat_map(|(_, v)| v.clone()).collect();
+                    let vars: Vec<(String, VarKind)> =
+                        alt.iter().flat_map(|(_, v)| v.clone()).collect();
                     common.retain(|c| vars.contains(c));
                 }
-                let pats: Vec<Vec<P>> = alts.iter().map(|a| a.iter().map(|(p, _)| p.clone()).collect()).collect();
+                let pats: Vec<Vec<P>> = alts
+                    .iter()
+                    .map(|a| a.iter().map(|(p, _)| p.clone()).collect())
+                    .collect();
                 let want_guard = !tys2.is_empty() && (guard_sel % 3 == 0);
                 let tys3 = tys2.clone();
-                let g: BoxedStrategy<Option<G>> = if want_guard { guard(common).prop_map(Some).boxed() } else { Just(None).boxed() };
+                let g: BoxedStrategy<Option<G>> = if want_guard {
+                    guard(common).prop_map(Some).boxed()
+                } else {
+                    Just(None).boxed()
+                };
                 g.prop_map(move |guard| {
-                    let mut case = MatchCase { tys: tys3.clone(), alts: pats.clone(), guard, parenthesized };
+                    let mut case = MatchCase {
+                        tys: tys3.clone(),
+                        alts: pats.clone(),
+                        guard,
+                        parenthesized,
+                    };
                     // a pattern that rejects the whole domain exercises little: generalise the first
                     // alternative just enough to accept one tuple (chosen by the guard selector byte)
                     let dom = case.domain();
-                    if !dom.is_empty() && !case.tys.is_empty() && !dom.iter().any(|t| case.accepts(t)) {
+                    if !dom.is_empty()
+                        && !case.tys.is_empty()
+                        && !dom.iter().any(|t| case.accepts(t))
+                    {
                         // the (alternative, tuple) pair with the fewest rejecting positions
                         let mut best: Option<(usize, usize, usize)> = None;
                         for (ai, alt) in case.alts.iter().enumerate() {
                             for (ti, t) in dom.iter().enumerate() {
-                                let rejecting = alt.iter().zip(t.iter()).filter(|(p, v)| !matches(p, v, &mut Env::new())).count();
+                                let rejecting = alt
+                                    .iter()
+                                    .zip(t.iter())
+                                    .filter(|(p, v)| !matches(p, v, &mut Env::new()))
+                                    .count();
                                 let ti_rot = (ti + guard_sel as usize) % dom.len();
-                                if best.map(|(r, _, tr)| rejecting < r || (rejecting == r && ti_rot < tr)).unwrap_or(true) {
+                                if best
+                                    .map(|(r, _, tr)| {
+                                        rejecting < r || (rejecting == r && ti_rot < tr)
+                                    })
+                                    .unwrap_or(true)
+                                {
                                     best = Some((rejecting, ai, ti_rot));
                                     if rejecting == 0 {
                                         break;
@@ -336,11 +460,15 @@ pub fn case_strategy() -> impl Strategy<Value = MatchCase> {
                     case
                 })
             })
-        },
-    )
+        })
 }
 
-fn arg_pat_mode(t: Ty, prefix: String, structural: bool, allow_eq: bool) -> BoxedStrategy<(P, Vec<(String, VarKind)>)> {
+fn arg_pat_mode(
+    t: Ty,
+    prefix: String,
+    structural: bool,
+    allow_eq: bool,
+) -> BoxedStrategy<(P, Vec<(String, VarKind)>)> {
     arg_pat(t, prefix, structural, allow_eq, true)
         .prop_map(move |(p, v)| {
             // in non-structural mode a coercing type must not produce literal / slice patterns
@@ -356,7 +484,15 @@ fn arg_pat_mode(t: Ty, prefix: String, structural: bool, allow_eq: bool) -> Boxe
 pub const RULE: &str = "programs = generated `matching!` invocations over 0-4 arguments typed from {u8, bool, char, &str, String, newtype with AsRef<str>, Option<u8>, (u8,u8), enum with unit/tuple/struct variants, struct, Vec<u8>, &[u8]}: literals, ranges, wildcards, bindings, @-bindings, or-patterns, Option/tuple/struct/enum patterns, slice patterns with rest, string literals against &str/String/newtypes, eq!/ne!, 1-3 top-level alternatives, guards over bound variables, simple and parenthesized forms, matching!(); each evaluated on EVERY tuple of the finite product domain (<= 300 tuples) in unordered (diagnostics off) and ordered (diagnostics on) evaluation. Oracle: the generator's own pattern interpreter; for patterns without AsRef coercion a native Rust match in the generated program cross-checks the interpreter. Non-trivial = >= 2 constructs among {or, guard, eq!, ne!, alternatives, slice rest, coercion, @-binding, range, nested structure} and the pattern accepts some tuples and rejects others; distinct = distinct pattern";
 
 fn spec<'a>() -> Spec<'a, MatchCase> {
-    Spec { project: "C06", prelude: PRELUDE, source: &source, judge: &judge, nbins: 16, max_shrink_steps: 30, extra_deps: "" }
+    Spec {
+        project: "C06",
+        prelude: PRELUDE,
+        source: &source,
+        judge: &judge,
+        nbins: 16,
+        max_shrink_steps: 30,
+        extra_deps: "",
+    }
 }
 
 pub fn run(ctx: &Ctx) -> Verdict {
@@ -366,15 +502,25 @@ pub fn run(ctx: &Ctx) -> Verdict {
         "the type-directed grammar only produces patterns the macro accepts for the argument type (rejected programs are counted, > 5% = inconclusive)".into(),
         "rustc's own match semantics are trusted for the cross-check of the interpreter".into(),
     ];
-    v.subs.push(crate::replay_corpus(ctx, &|sub, case| replay(sub, case)));
+    v.subs
+        .push(crate::replay_corpus(ctx, &|sub, case| replay(sub, case)));
     v.subs.push(run_documented(ctx));
     let n = ctx.tier.pick(1600, 32_000) as usize;
     let batches = n.div_ceil(1600);
     for b in 0..batches {
         let count = (n / batches).max(1);
-        let sub = if batches == 1 { "patterns".to_string() } else { format!("patterns-{b}") };
-        v.subs.push(e2::run(ctx, &sub, case_strategy(), count, &spec()));
-        if v.subs.last().map(|s| s.failure.is_some() || s.inconclusive.is_some()).unwrap_or(false) {
+        let sub = if batches == 1 {
+            "patterns".to_string()
+        } else {
+            format!("patterns-{b}")
+        };
+        v.subs
+            .push(e2::run(ctx, &sub, case_strategy(), count, &spec()));
+        if v.subs
+            .last()
+            .map(|s| s.failure.is_some() || s.inconclusive.is_some())
+            .unwrap_or(false)
+        {
             break;
         }
     }
@@ -389,7 +535,11 @@ pub fn documented_forms() -> Vec<MatchCase> {
         // matching!((1, 2) | (3, 4) | (5, 6))
         MatchCase {
             tys: vec![Ty::U8, Ty::U8],
-            alts: vec![vec![P::U8(1), P::U8(2)], vec![P::U8(3), P::U8(5)], vec![P::U8(5), P::U8(9)]],
+            alts: vec![
+                vec![P::U8(1), P::U8(2)],
+                vec![P::U8(3), P::U8(5)],
+                vec![P::U8(5), P::U8(9)],
+            ],
             guard: None,
             parenthesized: false,
         },
@@ -403,7 +553,10 @@ pub fn documented_forms() -> Vec<MatchCase> {
         // matching!(("a", "b", "c") | ("d", "e", "f" | "F"))
         MatchCase {
             tys: vec![Ty::StrRef, Ty::StrRef, Ty::StrRef],
-            alts: vec![vec![s("a"), s("b"), s("ab")], vec![s(""), s("a"), P::Or(vec![s("b"), s("ab")])]],
+            alts: vec![
+                vec![s("a"), s("b"), s("ab")],
+                vec![s(""), s("a"), P::Or(vec![s("b"), s("ab")])],
+            ],
             guard: None,
             parenthesized: false,
         },
@@ -431,7 +584,12 @@ pub fn documented_forms() -> Vec<MatchCase> {
             parenthesized: false,
         },
         // matching!()
-        MatchCase { tys: vec![], alts: vec![vec![]], guard: None, parenthesized: false },
+        MatchCase {
+            tys: vec![],
+            alts: vec![vec![]],
+            guard: None,
+            parenthesized: false,
+        },
     ]
 }
 
@@ -440,15 +598,28 @@ pub fn run_documented(ctx: &Ctx) -> vcore::SubReport {
     rep.exhaustive = true;
     let cases = documented_forms();
     let project = crate::driver::Project::new("C06-doc", PRELUDE);
-    let gen: Vec<crate::driver::GenCase> =
-        cases.iter().enumerate().map(|(id, c)| crate::driver::GenCase { id, source: source(c) }).collect();
+    let gen: Vec<crate::driver::GenCase> = cases
+        .iter()
+        .enumerate()
+        .map(|(id, c)| crate::driver::GenCase {
+            id,
+            source: source(c),
+        })
+        .collect();
     let _ = ctx;
     match project.run_batch(&gen, 2) {
         Err(e) => rep.inconclusive = Some(format!("HARNESS: {e}")),
         Ok(res) => {
             for (id, c) in cases.iter().enumerate() {
                 if let Some(err) = res.rejected.get(&id) {
-                    rep.fail(c, format!("documented form matching!({}) does not compile: {}", c.macro_args(), err.lines().next().unwrap_or("")));
+                    rep.fail(
+                        c,
+                        format!(
+                            "documented form matching!({}) does not compile: {}",
+                            c.macro_args(),
+                            err.lines().next().unwrap_or("")
+                        ),
+                    );
                     break;
                 }
                 match res.lines.get(&id) {
@@ -475,7 +646,8 @@ pub fn run_documented(ctx: &Ctx) -> vcore::SubReport {
 }
 
 pub fn replay(_sub: &str, case: Value) -> Result<(), String> {
-    let c: MatchCase = serde_json::from_value(case).map_err(|e| format!("HARNESS: bad case: {e}"))?;
+    let c: MatchCase =
+        serde_json::from_value(case).map_err(|e| format!("HARNESS: bad case: {e}"))?;
     match e2::run_single(&spec(), &c) {
         Ok(r) => r.map(|_| ()),
         Err(e) => Err(format!("HARNESS: {e}")),
